@@ -270,32 +270,51 @@ theorem C05_ci_gates_at_boundaries :
 theorem C05_ci_extends_C01 (doc : PyVal) (ci : ComposeInfo) (h : CI.deserialize doc = .ok ci) :
     Legacy.deserialize doc = .ok ci := Legacy.deserialize_of_deserialize doc ci h
 
-/-- **loaded is normal (partial: sections and key structure)** — whatever version the document had: the compose and
-release sections validate, and every variant container (top level and below every variant, at any depth; explicit
-child lists and UID-prefix scan alike) is keyed by id with no key twice — the hypothesis `WellKeyed` of C01.
-Not proved here: that every *variant* validates against its parent (the reader runs that validator, the statement needs
-the forest invariant of C11), and the sort order of children (document order for the prefix scan; the writer sorts). -/
+/-- **loaded is normal (partial: validity and key structure; `Normal` of C01 is false of the code)** — whatever version the
+document had, at any depth, for explicit child lists and for the UID-prefix forest below 1.0 alike:
+* the compose and release sections validate; a layered release has a base product that validates, a non-layered one none;
+* every variant passes the generated `Variant` validators AGAINST ITS PARENT (`ValidVs`: id syntax, UID aligned with the
+  parent's UID — with the id at top level —, name, type, arches non-empty and within the parent's, container keys), and the
+  release of a layered-product variant validates;
+* every container is keyed by id with no key twice (`WellKeyed`, the hypothesis of C01).
+The header is not part of the typed object: the writer always emits the current version (C01).
+Full statement (DESIGN): `… → Valid x ∧ Normal x`.  `Normal` (C01: `final` only with a label, children in sorted order) does
+NOT hold of what the reader returns — `final` is kept without a label until the first write, children of the prefix scan
+come in document order: `C05_ci_loaded_not_normal_witness`; both are settled by the first write (`C05_ci_idempotent`).
+The boundary of the prefix forest is F32 (depth ≥ 3 refused: `C05_ci_legacy_depth3_refused_witness`). -/
 theorem C05_ci_loaded_is_normal_partial (doc : PyVal) (ci : ComposeInfo) (h : Legacy.deserialize doc = .ok ci) :
     validateClass "composeinfo.Compose" (composeObj ci.compose) = .ok ()
     ∧ validateClass "composeinfo.Release" (releaseObj ci.release) = .ok ()
+    ∧ (ci.release.isLayered = true → ∃ b, ci.base = some b ∧ validateClass "composeinfo.BaseProduct" (baseObj (some b)) = .ok ())
+    ∧ (ci.release.isLayered = false → ci.base = none)
+    ∧ Legacy.ValidVs none ci.variants
     ∧ WellKeyed ci :=
   ⟨(Legacy.deserialize_sections_valid doc ci h).1, (Legacy.deserialize_sections_valid doc ci h).2,
-   Legacy.deserialize_wellKeyed doc ci h⟩
+   (Legacy.deserialize_forest_valid doc ci h).2.1, (Legacy.deserialize_forest_valid doc ci h).2.2,
+   (Legacy.deserialize_forest_valid doc ci h).1, Legacy.deserialize_wellKeyed doc ci h⟩
 
 /--
-**idempotent (partial: hypothesis "the writer accepts it").**  A compose description loaded from a document of any
-version, once the current writer has written it as document `j`: the *current* reader (`CI.deserialize`, no legacy
-branch: conversion happens exactly once) — and therefore also the legacy-aware one — reads `j` back as the normal form of
-the loaded object (children in sorted order, nothing else changes: `C01_norm_*`), and writing that again gives the very
-same document.  No hypothesis on UIDs is needed: the loaded object is well keyed (`C05_ci_loaded_is_normal_partial`) and a
-successful write of a well-keyed forest implies distinct UIDs (C01).
+**idempotent.**  A compose description loaded from a document of any version, once the current writer has written it as
+document `j` (`hs`: the dump succeeded): the *current* reader (`CI.deserialize`, no legacy branch: conversion happens exactly
+once) — and therefore also the legacy-aware one — reads `j` back as the normal form of the loaded object (children in sorted
+order, `final` only with a label; nothing else changes: `C01_norm_*`), and writing that again gives the very same document.
+Nothing but the load and the successful dump is assumed: the loaded object is well keyed (`C05_ci_loaded_is_normal_partial`)
+and a successful write of a well-keyed forest has distinct UIDs (`C01_written_uids_distinct`).
 -/
-theorem C05_ci_idempotent_partial (doc j : PyVal) (x : ComposeInfo) (h : Legacy.deserialize doc = .ok x)
+theorem C05_ci_idempotent (doc j : PyVal) (x : ComposeInfo) (h : Legacy.deserialize doc = .ok x)
     (hs : serialize x = .ok j) :
     CI.deserialize j = .ok x.norm ∧ Legacy.deserialize j = .ok x.norm ∧ serialize x.norm = .ok j := by
   have hk := Legacy.deserialize_wellKeyed doc x h
   have h1 := C01_readback x j hk hs
   exact ⟨h1, Legacy.deserialize_of_deserialize j _ h1, C01_fixpoint x j hk hs⟩
+
+/-- through the text as well: with `parse` standing for `json.load` (inverting the printer on the written document is the
+explicit hypothesis of C01_bytes), the text of the first dump is re-loaded and dumped to the same text -/
+theorem C05_ci_idempotent_bytes (parse : Str → Except Err PyVal) (doc : PyVal) (x : ComposeInfo) (t : Str)
+    (h : Legacy.deserialize doc = .ok x)
+    (hjson : ∀ j, serialize x = .ok j → parse (JsonText.dumps j) = .ok j) (hd : dumps x = .ok t) :
+    reloadDump parse t = .ok t :=
+  C01_bytes parse x t (Legacy.deserialize_wellKeyed doc x h) hjson hd
 
 /-- **faithful, `product` section (≤ 0.3)**: what is read has `internal = False`, whatever the section says -/
 theorem C05_ci_faithful_product_not_internal (holder : PyVal) (r : Release) (h : Legacy.releaseDe03 holder = .ok r) :
@@ -331,6 +350,19 @@ theorem C05_ci_upgrade_witness :
        && (x.variants.map fun v => v.kids.map Variant.uid) == [[], [k%"Server-optional", k%"Server-LP"]]
        && (x.variants.flatMap fun v => v.kids.map fun c => c.release.map (·.type)) == [none, some k%"eus"]
        && PyVal.beq (PyVal.canon d1) (PyVal.canon d2) && decide (UidsDistinct x) && decide (x2.norm.variants.length = 2)
+     | .error _ => false) = true := by decide +kernel
+
+/-- what the reader returns is not `Normal` in C01's sense: a 1.0 document with `final: true` and no label loads with
+`final = True` (dropped by the first write), and `norm` is not the identity on it -/
+theorem C05_ci_loaded_not_normal_witness :
+    let doc : PyVal := .dict [(k%"header", .dict [(k%"version", .str k%"1.0")]),
+      (k%"payload", .dict [
+        (k%"compose", .dict [(k%"id", .str k%"F-22-20150522.0"), (k%"type", .str k%"production"), (k%"date", .str k%"20150522"),
+                            (k%"respin", .int 0), (k%"final", .bool true)]),
+        (k%"release", .dict [(k%"name", .str k%"Fedora"), (k%"short", .str k%"F"), (k%"version", .str k%"22")]),
+        (k%"variants", .dict [])])]
+    (match Legacy.deserialize doc with
+     | .ok x => x.compose.final && x.compose.label.isNone && !x.norm.compose.final && decide (¬ Normal x)
      | .error _ => false) = true := by decide +kernel
 
 /-- **F32 witness**: a three-level forest related only by UID prefixes is refused (the grandchild is also taken for a
